@@ -3,7 +3,9 @@ package main
 import (
 	"bytes"
 	"context"
+	"dsim/simos"
 	"fmt"
+	"github.com/rpcpool/yellowstone-faithful/deprecated/compactindex36"
 	"os"
 	"path/filepath"
 	"strings"
@@ -66,6 +68,54 @@ func c10setFromDir(b *builtWorld) (c10set, error) {
 		s.files[role] = m[0]
 	}
 	return s, nil
+}
+
+// c10oldFormat builds a genuine slot-to-cid or sig-to-cid index of world w in the old file format
+// (deprecated/compactindex36: 36-byte values, no metadata).
+func c10oldFormat(role string, w *world.World, dir string) (string, error) {
+	os.MkdirAll(dir, 0o755)
+	tmp := filepath.Join(dir, "tmp")
+	os.MkdirAll(tmp, 0o755)
+	n := len(w.Blocks)
+	if role == "sig_to_cid" {
+		n = len(w.Txs)
+	}
+	b, err := compactindex36.NewBuilder(tmp, uint(n), uint64(n)*80+4096)
+	if err != nil {
+		return "", err
+	}
+	defer b.Close()
+	put := func(key []byte, c cid.Cid) error {
+		var v [36]byte
+		if copy(v[:], c.Bytes()) != 36 {
+			return fmt.Errorf("CID of %d bytes", c.ByteLen())
+		}
+		return b.Insert(key, v)
+	}
+	if role == "sig_to_cid" {
+		for _, tx := range w.Txs {
+			sig := tx.Sig()
+			if err := put(sig[:], tx.Cid); err != nil {
+				return "", err
+			}
+		}
+	} else {
+		for _, bl := range w.Blocks {
+			if err := put(indexes.Uint64tob(bl.Slot), bl.Cid); err != nil {
+				return "", err
+			}
+		}
+	}
+	path := filepath.Join(dir, role+".old.index")
+	f, err := simos.Create(path)
+	if err != nil {
+		return "", err
+	}
+	if err := b.Seal(context.Background(), f); err != nil {
+		f.Close()
+		return "", err
+	}
+	return path, f.Close()
 }
 
 // c10rebuild builds the index of one role for world w with the real writer, with the epoch and/or
@@ -323,16 +373,54 @@ func scenarioC10(x *runner.X) {
 				}
 			}
 		}
+		// 2b. per-file formats: the loader accepts an old-format (compactindex36, no identity metadata)
+		// slot-to-cid or sig-to-cid file next to current-format files. With one of the two in the old
+		// format, every identity fault on any OTHER role must still fail the load.
+		for _, oldRole := range []string{"slot_to_cid", "sig_to_cid"} {
+			oldPath, err := c10oldFormat(oldRole, w1.w, filepath.Join(rebuilt, "old-"+oldRole))
+			if err != nil {
+				s.Fail("harness", "build an old-format index", oldRole+": "+err.Error())
+			}
+			base := s1.clone()
+			base.files[oldRole] = oldPath
+			if ep, err := tryLoad(base); err != nil {
+				x.Probe("c10.mixed-format-genuine-refused")
+				continue
+			} else {
+				ep.Close()
+				x.Probe("c10.mixed-format-genuine-loaded")
+			}
+			for _, f := range ident {
+				if f.role == oldRole {
+					continue
+				}
+				set := base.clone()
+				set.files[f.role] = f.path
+				x.Probe("c10.cases")
+				x.Fault("index-swap-mixed-format")
+				if ep, err := tryLoad(set); err == nil {
+					ep.Close()
+					if x.Failf("oracle", "an epoch loads although its "+f.role+" index "+f.kind+" (next to an old-format "+oldRole+" file)", "config epoch %d root %s; %s <- %s", e1, w1.w.Root, f.role, filepath.Base(f.path)) {
+						return
+					}
+				}
+			}
+		}
 		// 3. the CAR of another epoch under the genuine indexes: CID-addressed fetches must fail
 		set := s1.clone()
 		set.car = s2.car
 		x.Fault("car-swap")
 		if ep, err := tryLoad(set); err == nil {
-			for _, o := range w1.w.Objects {
-				data, err := ep.GetNodeByCid(context.Background(), o.Cid)
-				if err == nil && !bytes.Equal(data, o.Data) {
-					if x.Failf("oracle", "with a foreign CAR a CID-addressed fetch returns another object's bytes", "%s %s: %d bytes", world.KindName(o.Kind), o.Cid, len(data)) {
-						break
+			// one long-lived handle, every CID asked three times: what an earlier fetch left in the
+			// epoch's caches must not turn a later one into a success
+		rounds:
+			for round := 0; round < 3; round++ {
+				for _, o := range w1.w.Objects {
+					data, err := ep.GetNodeByCid(context.Background(), o.Cid)
+					if err == nil && !bytes.Equal(data, o.Data) {
+						if x.Failf("oracle", "with a foreign CAR a CID-addressed fetch returns another object's bytes", "round %d: %s %s: %d bytes", round, world.KindName(o.Kind), o.Cid, len(data)) {
+							break rounds
+						}
 					}
 				}
 			}
